@@ -26,7 +26,7 @@ from pydsol.core.units import Duration
 from pydsol.core.utils import DSOLError
 
 CONCS = ("float", "int", "dur", "mixed")
-CONCS_OFF = ("float", "int", "dur", "mixed", "float+6", "int-3", "dur+2", "int+7", "mixed-1")
+CONCS_OFF = ("float", "int", "dur", "mixed", "float+6", "int-3", "dur+2", "int+7", "mixed-1", "float+4000000000", "dur+4000000000")
 BAD = -999
 
 
